@@ -24,7 +24,7 @@ func registerC01() {
 			"splices, truncation, extension, header edits, definition edits, record-header edits, size lies; CRC recomputed for half) of device files and model streams, each fed to the six " +
 			"entry points under three chunkers. Family monsters: well-formed streams whose definitions have up to 255 fields and 255 developer fields of up to 255 bytes, half of them with a total record size placed at a 16-bit boundary (65535, 65536, 65537, 64 KiB +- 300, 128 KiB - 1100...), under whole-buffer and short-read chunkers. Family sizes: valid and mutated small files whose header data-size field is set to boundary values (0, 1, the true size +-k, 2^31-1, 2^31, 2^32-1, ...) with and without matching CRCs, through the six entry points. The mutants, multidefs and sizes families are run a second time in a GOARCH=386 binary (32-bit int) when the host can execute it. Family zones: activity files whose local timestamps are every quarter hour from -30 h to +30 h (and seconds to either side, and far-out values) away from the UTC reference. Family devdata: streams whose developer fields are announced by developer_data_id and field_description messages (base type id: any byte). Family multidefs: PRNG streams of 1-4 definitions with 1-8 ARBITRARY field definitions each (any field number, size, base byte; " +
 			"developer-field lists; known and unknown messages; occasionally an illegal arch byte) followed by data records of exactly the defined sizes (some behind compressed headers), " +
-			"framed with correct CRCs, decoded with and without options (formatting logger, unknown lists) under two chunkers. A case is one stream; in family fielddefs each is distinct by construction and counted non-trivial because it reaches the definition validator; " +
+			"framed with correct CRCs, decoded with and without options (formatting logger, unknown lists) under two chunkers. family scratch: records that leave no zero byte in any buffer a decoder may keep (255 native / developer definition entries, 255-byte fields), then each string field of the profile at sizes 1-255 without terminator, four entry points, three chunkers. A case is one stream; in family fielddefs each is distinct by construction and counted non-trivial because it reaches the definition validator; " +
 			"mutants are distinct by digest",
 		Assume:        []string{"a hang is decided logically (more than 10000 reads after the input ended) or by the doubly-confirmed wall-clock watchdog"},
 		MinNontrivial: 1000000,
